@@ -405,7 +405,15 @@ impl World {
     /// Creates the operation's future (not polled yet). None if the handle slot is empty.
     pub fn start_op(&mut self, h: usize, spec: OpSpec) -> Option<usize> {
         let handle = self.handles.get(h)?.as_ref()?.clone();
-        let task = Task::new(run_op(handle, spec.clone()));
+        // the library method is called now, the future it returns is polled when the script says
+        let sp = spec.clone();
+        let task = match guarded(move || EagerOp::new(handle, sp)) {
+            Ok(f) => Task::new(f),
+            Err(m) => {
+                self.panics.push(("call of the operation method".into(), m));
+                Task::new(std::future::pending::<OpOut>())
+            }
+        };
         self.ops.push(OpSlot {
             spec,
             handle: h,
